@@ -279,7 +279,7 @@ def _run_shard(ctx, args):
                         d2["name"], d2["W"], d2["H"],
                         [list(q) for q in d2["items"]]), light=True)
         except ValueError as e:
-            if "does not fit" in str(e) or "must be in" in str(e):
+            if wb.outside_domain(desc):
                 ctx.count("generator_rejected_by_ctor")
                 continue
             raise
